@@ -6708,6 +6708,10 @@ def is_duplicate_mapping(
             len(mapping) == 2
             and actual_kinds[mapping[0]] == nodes.ARG_STAR
             and actual_kinds[mapping[1]] == nodes.ARG_STAR2
+            and not (
+                isinstance(get_proper_type(actual_types[mapping[0]]), TupleType)
+                and isinstance(get_proper_type(actual_types[mapping[1]]), TypedDictType)
+            )
         )
         # Multiple actuals can map to the same formal if there are multiple
         # **kwargs which cannot be mapped with certainty (non-TypedDict
